@@ -529,6 +529,10 @@ func (u *Upstream) withAckTimeoutCh(ctx context.Context, inCh <-chan *message.Up
 		defer cancel()
 		select {
 		case <-timeoutCtx.Done():
+			if ctx.Err() != nil || u.ctx.Err() != nil {
+				// cancelled (disconnected or closed), not timed out: the chunk stays stored
+				return
+			}
 			select {
 			case <-ctx.Done():
 			case <-u.ctx.Done():
